@@ -20,14 +20,15 @@ EXTENDS Integers, Sequences, FiniteSets, TLC, Json, IOUtils
 Trace  == ndJsonDeserialize(IOEnv.VERIF_TRACE)
 Bounds == ndJsonDeserialize(IOEnv.VERIF_BOUNDS)
 
-VARIABLES tr, l, viol, cfg, tbl, hist, call, tgt, urev, streak, changed, doneVer, firstWait
-vars == << tr, l, viol, cfg, tbl, hist, call, tgt, urev, streak, changed, doneVer, firstWait >>
+VARIABLES tr, l, viol, cfg, tbl, hist, call, tgt, urev, streak, changed, doneVer, firstWait,
+          also   \* first non-convergence (C14) seen AFTER a violation of another property: see TStep
+vars == << tr, l, viol, cfg, tbl, hist, call, tgt, urev, streak, changed, doneVer, firstWait, also >>
 NoViol == [l |-> 0, inv |-> "ok", exp |-> ""]
 Range(s) == { s[i] : i \in 1..Len(s) }
 
 TInit ==
     /\ \E t \in 1..Len(Bounds) : tr = t /\ l = Bounds[t].s
-    /\ viol = NoViol
+    /\ viol = NoViol /\ also = NoViol
     /\ cfg = [minb |-> 0, maxb |-> 0, limit |-> 0, round |-> 0, idle |-> FALSE, refresh |-> 0]
     /\ tbl = << >> /\ hist = (0 :> {}) /\ call = << >> /\ tgt = << >> /\ urev = << >>
     /\ streak = << >> /\ changed = {} /\ doneVer = << >> /\ firstWait = 0
@@ -111,15 +112,21 @@ WaitBad(e) ==
     ELSE IF Failed # {} /\ e.lw # MinOf({ call[k].orig : k \in Failed }) THEN "C16_LowWatermark"
     ELSE "ok"
 
+\* convergence, judged on what the log shows at quiescence alone (table rows and target)
+QuiesceC14(e) ==
+    LET rows == Range(e.table)
+        tg == { << e.target[i][1], e.target[i][2] >> : i \in 1..Len(e.target) } IN
+    \* (with the refresh loop running an object may be on its way from Done to Done again)
+    IF \E r \in rows : r[3] # "Done" /\ ~(cfg.refresh > 0 /\ r[3] = "Refreshing") THEN "C14_Converged_Status"
+    ELSE IF { << r[1], r[2] >> : r \in rows } # tg THEN "C14_Converged_Target"
+    ELSE "ok"
+
 QuiesceBad(e) ==
     LET rows == Range(e.table)
         tg == { << e.target[i][1], e.target[i][2] >> : i \in 1..Len(e.target) } IN
     IF tg # { << k, tgt[k] >> : k \in DOMAIN tgt } THEN "MACHINERY_TargetBookkeeping"
     ELSE IF rows # Rows(tbl) THEN "C15_NewerOverwritten"
-    \* (with the refresh loop running an object may be on its way from Done to Done again)
-    ELSE IF \E r \in rows : r[3] # "Done" /\ ~(cfg.refresh > 0 /\ r[3] = "Refreshing") THEN "C14_Converged_Status"
-    ELSE IF { << r[1], r[2] >> : r \in rows } # tg THEN "C14_Converged_Target"
-    ELSE "ok"
+    ELSE QuiesceC14(e)
 
 Bad(e) ==
     CASE e.op = "commit"  -> CommitBad(e)
@@ -184,14 +191,22 @@ TStep ==
     /\ LET e == Trace[l] IN
        /\ viol' = IF viol.inv # "ok" THEN viol
                   ELSE LET b == Bad(e) IN IF b = "ok" THEN viol ELSE [l |-> l, inv |-> b, exp |-> ""]
+       \* A log is judged by its first violation.  The convergence judgement (C14) at quiescence compares the logged
+       \* table with the logged target only, so it stays meaningful after an earlier violation of C15/C16 (a status
+       \* written for the wrong version both misreports, C15, and leaves the object unreconciled for ever, C14): it is
+       \* reported in addition, for the check of C14.
+       /\ also' = IF also.inv # "ok" \/ viol.inv = "ok" \/ e.op # "quiesce" THEN also
+                  ELSE LET b == QuiesceC14(e) IN
+                       IF b # "ok" THEN [l |-> l, inv |-> b, exp |-> ""] ELSE also
        /\ Step(e)
     /\ l' = l + 1 /\ tr' = tr
 
 TDone ==
     /\ l = Bounds[tr].e + 1
     /\ PrintT(<< "VERDICT", Bounds[tr].id, viol.l, viol.inv, viol.exp >>)
+    /\ also.inv # "ok" => PrintT(<< "ALSO", Bounds[tr].id, also.l, also.inv >>)
     /\ l' = l + 1
-    /\ UNCHANGED << tr, viol, cfg, tbl, hist, call, tgt, urev, streak, changed, doneVer, firstWait >>
+    /\ UNCHANGED << tr, viol, cfg, tbl, hist, call, tgt, urev, streak, changed, doneVer, firstWait, also >>
 
 TNext == TStep \/ TDone
 TSpec == TInit /\ [][TNext]_vars
